@@ -68,10 +68,20 @@ func mirrorOK(c *Client) bool {
 //@ func (c *Client) WaitGreeting() (err error)
 //@   panics assumed-unreachable artefact of go/ssa's lowering of a blocking select without default
 
+// isStartTLSConn: the connection handed to the TLS layer replays the drained
+// plaintext first.
+//
+//@ pure
+func isStartTLSConn(conn net.Conn) bool {
+	_, ok := conn.(startTLSConn)
+	return ok
+}
+
 //@ func (c *Client) upgradeStartTLS(tlsConfig *tls.Config)
 //@   props C17:post,pre@call,callsite
 //@   callsite tls.Client requires __called("CopyN")
-//@   callsite io.MultiReader(readers []io.Reader) requires len(readers) == 2 && isBytesBuffer(readers[0])
+//@   callsite tls.Client(conn net.Conn, config *tls.Config) requires __result("Buffer.Len") > 0 ==> __called("MultiReader") && isStartTLSConn(conn)
+//@   callsite io.MultiReader(readers []io.Reader) requires len(readers) == 2 && isBytesBuffer(readers[0]) && !__called("Client")
 //@   callsite Reader.Reset requires __called("Client")
 //@   ensures[C17] __called("Reader.Reset") && __called("Client")
 //@   panics assumed-unreachable io.CopyN of exactly Buffered() bytes from a bufio.Reader into a bytes.Buffer cannot fail (stdlib contract)
